@@ -1,5 +1,75 @@
 import Bxh.Model.Chain
+/-!
+# C09 — the stored chain is hash-linked and every index agrees with the executed blocks
+Theorems about `persist` and the getters of `Bxh.Chain` (model of `PersistExecutionResult`,
+`GetBlock`, `GetBlockByHash`, `GetBlockHash`, `GetTransactionMeta`, `GetChainMeta`).
+-/
 namespace Bxh.Props.C09
 open Bxh Bxh.Chain
-theorem placeholder_true : True := trivial
+
+/-- tables and index agree with the cached head: what `ledger.New` establishes and `persist` keeps -/
+def Consistent (n : Node) : Prop :=
+  n.blocks = n.cmeta.1 ∧ n.tbl.bodies.length = n.cmeta.1 ∧ n.tbl.txs.length = n.cmeta.1 ∧
+  n.tbl.inter.length = n.cmeta.1
+
+/-- **hash link and head**: the block persisted next has height head+1, its parent is the previous
+head hash, and the chain meta afterwards names it with the cumulative interchain count -/
+theorem C09_persist_links (n n' : Node) (b : Blk) (txs : List String) (ctr : KV String Nat)
+    (h : persist n txs ctr = some (n', b)) :
+    b.height = n.cmeta.1 + 1 ∧ b.parent = n.cmeta.2.1 ∧ b.txs = txs ∧
+    n'.cmeta = (b.height, b.hash, countOf b + n.cmeta.2.2) ∧ n'.idx.metaDB = some n'.cmeta := by
+  unfold persist at h
+  simp only at h
+  split at h
+  · cases h
+  · cases h
+    simp [mkBlk, applyBlk, indexBatch]
+
+/-- the chain-side effect of a block whose height is head+1 on a consistent node: every lookup finds it -/
+theorem applyBlk_lookup (n : Node) (b : Blk) (hc : Consistent n) (hh : b.height = n.cmeta.1 + 1) :
+    getBlock (applyBlk n b) b.height false = some b ∧ getBlock (applyBlk n b) b.height true = some b ∧
+    getByHash (applyBlk n b) b.hash = some b ∧ getBlockHash (applyBlk n b) b.height = some b.hash ∧
+    getIMeta (applyBlk n b) b.height = some b.counter ∧ getTxCount (applyBlk n b) b.height = some b.txs.length := by
+  obtain ⟨hb, hbod, htx, hint⟩ := hc
+  have e1 : (n.tbl.append b).bodies[n.cmeta.1]? = some b := by simp [Tables.append, ← hbod]
+  have e2 : (n.tbl.append b).txs[n.cmeta.1]? = some b := by simp [Tables.append, ← htx]
+  have e3 : (n.tbl.append b).inter[n.cmeta.1]? = some b := by simp [Tables.append, ← hint]
+  have eb : ({ height := n.cmeta.1 + 1, hash := b.hash, parent := b.parent, txs := b.txs, counter := b.counter } : Blk) = b := by
+    cases b; simp_all
+  simp [getBlock, getByHash, getBlockHash, getIMeta, getTxCount, applyBlk, indexBatch, hh, e1, e2, e3, eb]
+
+/-- **lookups agree**: after persisting on a consistent node the new block is found by height (both
+modes), by hash and by the height→hash index, with its interchain metadata and transaction count -/
+theorem C09_persist_lookup (n n' : Node) (b : Blk) (txs : List String) (ctr : KV String Nat)
+    (hc : Consistent n) (h : persist n txs ctr = some (n', b)) :
+    getBlock n' b.height false = some b ∧ getBlock n' b.height true = some b ∧
+    getByHash n' b.hash = some b ∧ getBlockHash n' b.height = some b.hash ∧
+    getIMeta n' b.height = some b.counter ∧ getTxCount n' b.height = some b.txs.length := by
+  unfold persist at h
+  simp only at h
+  split at h
+  · cases h
+  · cases h
+    have := applyBlk_lookup n (mkBlk n txs ctr) hc rfl
+    simpa [getBlock, getByHash, getBlockHash, getIMeta, getTxCount] using this
+
+/-- persisting keeps the node consistent -/
+theorem C09_persist_consistent (n n' : Node) (b : Blk) (txs : List String) (ctr : KV String Nat)
+    (hc : Consistent n) (h : persist n txs ctr = some (n', b)) : Consistent n' := by
+  obtain ⟨hb, hbod, htx, hint⟩ := hc
+  unfold persist at h
+  simp only at h
+  split at h
+  · cases h
+  · cases h
+    simp [Consistent, applyBlk, mkBlk, Tables.append, hb, hbod, htx, hint]
+
+/-- on a consistent node the append is always in order (no panic) -/
+theorem C09_persist_total (n : Node) (txs : List String) (ctr : KV String Nat) (hc : Consistent n) :
+    (persist n txs ctr).isSome = true := by
+  unfold persist
+  simp [hc.1]
+
+example : Consistent ({} : Node) := by simp [Consistent]
+
 end Bxh.Props.C09
